@@ -34,7 +34,7 @@ Print Assumptions C01_2d_inner_is_1d.
 
 (* ZD search (bi-zoned, constrained): the finally selected field has non-positive excess at maximum height *)
 Theorem C01_ZD_selected_feasible_at_hmax :
-  forall nested cap cont it e drill z, searchZD nested cap cont it e drill = Ok z ->
+  forall nested cap cont it e drill z, searchZD nested cap cont it e drill = Ok z -> zd_escaped z = false ->
   (e (zd_outer z) (zd_sel z) Hmax <= 0)%Q.
 Proof. exact searchZD_feasible_at_hmax. Qed.
 Print Assumptions C01_ZD_selected_feasible_at_hmax.
